@@ -105,7 +105,7 @@ impl Drop for Arena {
 }
 
 // ---------------------------------------------------------------- sentinels
-pub const MAX_SLOTS: usize = 256;
+pub const MAX_SLOTS: usize = 1024;
 static SENT: [u8; MAX_SLOTS * 8 + 16] = [b'~'; MAX_SLOTS * 8 + 16];
 
 pub fn sentinel(i: usize) -> httparse::Header<'static> {
